@@ -46,7 +46,10 @@ func (s logonState) FixMsgIn(session *session, msg *Message) (nextState sessionS
 
 		case targetTooHigh:
 			var tooHighErr error
-			if nextState, tooHighErr = session.doTargetTooHigh(err); tooHighErr != nil {
+			// The too-high Logon itself is not consumed: its own number is still
+			// missing, so the range to recover extends through it.
+			session.log.OnEventf("MsgSeqNum too high, expecting %v but received %v", err.ExpectedTarget, err.ReceivedTarget)
+			if nextState, tooHighErr = session.sendResendRequest(err.ExpectedTarget, err.ReceivedTarget); tooHighErr != nil {
 				return shutdownWithReason(session, msg, false, tooHighErr.Error())
 			}
 
